@@ -55,9 +55,10 @@ Case keys (all optional, see `normalize_case` for defaults):
   workload      'sleep' | 'map' | 'quick'  (+ 'iters', 'step', 'width',
                 'nbytes', 'nap' to tune them)
   seed          chooses the victim when there are several candidates
-  pick          'root' | 'nonroot' | None: for victim 'worker' in the phases
-                'during'/'during_shutdown', prefer the worker that runs the
-                root task / one that does not (falls back to the seed)
+  pick          'root' | 'nonroot' | 'first' | None: for victim 'worker' in the
+                phases 'during'/'during_shutdown', prefer the worker that runs
+                the root task / one that does not (falls back to the seed);
+                'first': the first employee of its boss (lowest pid)
   bound         seconds the client call / the runtime get to finish (30)
   stop_wait     seconds between SIGSTOP and SIGKILL for stop_first (1.0)
   flag_wait     max seconds to wait for the workload to be in full swing
@@ -203,9 +204,32 @@ def _kill_everything(run_id: str, pgid: int | None) -> list[dict]:
 
 
 def _acquire_lock(lockf: Any, lock_wait: float | None) -> bool:
+    """Take the machine-wide runtime lock, waiting at most `lock_wait` seconds.
+
+    The bounded wait QUEUES like a blocking flock(2) (other checks wait with
+    blocking calls; a polling LOCK_NB loop never wins against such a queue):
+    util-linux `flock -w <s> <fd>` blocks on OUR open file description, so when it
+    succeeds this process holds the lock.  Falls back to polling."""
     if lock_wait is None:
         fcntl.flock(lockf, fcntl.LOCK_EX)
         return True
+    try:
+        fcntl.flock(lockf, fcntl.LOCK_EX | fcntl.LOCK_NB)
+        return True
+    except (BlockingIOError, PermissionError):
+        pass
+    exe = shutil.which('flock')
+    if exe is not None and lock_wait > 0:
+        fd = lockf.fileno()
+        try:
+            r = subprocess.run(
+                [exe, '-x', '-w', f'{lock_wait:.1f}', str(fd)], pass_fds=[fd],
+                stdin=subprocess.DEVNULL, stdout=subprocess.DEVNULL,
+                stderr=subprocess.DEVNULL, timeout=lock_wait + 30,
+            )
+            return r.returncode == 0
+        except (OSError, subprocess.TimeoutExpired):
+            pass
     end = time.monotonic() + lock_wait
     while True:
         try:
@@ -406,6 +430,17 @@ def default_cases(rng: random.Random, n: int) -> list[dict]:
     ]
     if n <= len(head):
         return head[:n]
+    # strengthening round: (a) the FIRST of three workers of a manager dies (the
+    # manager must still tell the other two, join them and notify the server);
+    # (b) a manager is SIGSTOPped under map traffic, then SIGKILLed: its socket
+    # buffers hold unread worker data, the workers' recv() fails with
+    # ConnectionResetError instead of EOFError - they must still exit
+    head += [
+        mk('detached', 'worker', 'during', 'sleep', 'result', workers=3,
+           pick='first'),
+        mk('detached', 'manager', 'during', 'map', 'result', True, workers=2,
+           stop_wait=1.5),
+    ]
     rest = [
         mk('attached', 'worker', 'during', 'map', 'result'),
         mk('attached', 'worker', 'after_submit', 'sleep', 'result'),
@@ -694,6 +729,10 @@ class _Runner:
         if not cands:
             raise _StartupError('invalid_case', f'no process of role {want}')
         choice = rng.choice(cands)
+        if case.get('pick') == 'first':
+            # workers are forked in id order: the lowest pid is employee 0 of the
+            # first manager - NOT the last entry of its boss's employee list
+            return cands[0]
         root = self._root_worker()
         if want == 'worker' and case.get('pick') and root in cands:
             if case['pick'] == 'root':
